@@ -48,7 +48,7 @@ def run(ctx):
     with open(os.path.join(ctx.scratch, 'c31_cases.ndjson'), 'w') as f:
         for k in keys:
             f.write(json.dumps(cases[k]) + '\n')
-    res = ctx.gotest('e2e', 'TestVerif_C31', tags='verif e2e_testing', also=('net',), timeout=2400)
+    res = ctx.gotest('e2e', 'TestVerif_C31', tags='verif e2e_testing', also=('net',), timeout=900 if ctx.quick else 2400)
     ctx.take_mismatches(res)
     if not ctx.violations:
         ctx.require_actions('StartA', 'StartB', 'Deliver:hs1x', 'Deliver:hs2y', 'DataA', 'double-tunnel-case', 'swap-observed')
